@@ -80,6 +80,10 @@ func openIn(path string) (*bufio.Scanner, func()) {
 	return sc, func() { f.Close() }
 }
 
+// flushEach (VH_FLUSH=1): every record reaches the file before the next item is started, so that after a
+// crash or a hang the driver knows which item it was.
+var flushEach = os.Getenv("VH_FLUSH") == "1"
+
 func writeJSON(w *bufio.Writer, v interface{}) {
 	b, err := json.Marshal(v)
 	if err != nil {
@@ -87,4 +91,7 @@ func writeJSON(w *bufio.Writer, v interface{}) {
 	}
 	w.Write(b)
 	w.WriteByte('\n')
+	if flushEach {
+		w.Flush()
+	}
 }
